@@ -95,7 +95,7 @@ fn gen(seed: u64, family: &str, tier: Tier) -> Case {
     let gp = GraphParams { p_no_dead_ends: 0.8, p_disconnected: 0.25, ..graph_params(tier) };
     let mut w = World::gen_graph(&mut r, &gp);
     gen_traversal(&mut r, &mut w);
-    gen_algorithm(&mut r, &mut w, false);
+    gen_algorithm(&mut r, &mut w, false, false);
     w.ref_unlimited = true;
     w.input_plugins = vec![];
     w.parallelism = r.range(1, 6) as usize;
